@@ -669,6 +669,25 @@ Proof.
   intros Hin. rewrite Forall_forall in Ha. specialize (Ha a Hin). lia.
 Qed.
 
+(* the same invariant in the form a storage-level induction needs (every partition ring is created by new_ring
+   and only ever updated by ring_step) *)
+Lemma wf_new_ring n : wf n (new_ring n).
+Proof. exists [], n. repeat split; constructor. Qed.
+
+Lemma wf_ring_step md n r c lag : wf n r -> wf n (fst (ring_step md r c lag)).
+Proof.
+  intros (cs & b & Hs & Hd & Hlen). unfold shape in Hs. subst r. rewrite (ring_step_abs md _ _ _ _ Hd).
+  destruct (abs_step md cs b c lag) as [[cs' b'] a0] eqn:E. cbn [fst].
+  destruct (abs_step_shape _ _ _ _ _ _ _ _ Hd E) as [Hd' Hlen'].
+  exists cs', b'. repeat split; [exact Hd'|lia].
+Qed.
+
+Lemma wf_readout n r : wf n r -> exists b cs, readout r = window b cs /\ (b + length cs = n)%nat /\ asc cs.
+Proof.
+  intros (cs & b & Hs & Hd & Hlen). unfold shape in Hs. subst r. exists b, (rev cs).
+  rewrite readout_conc, rev_length. repeat split; [lia|apply desc_asc_rev; exact Hd].
+Qed.
+
 (* ---------- window_newest_last ---------- *)
 Definition omax (o : option Z) (x : Z) : option Z := Some (match o with None => x | Some m => Z.max m x end).
 Definition max_order (l : list (commit * Z)) : option Z := fold_left (fun o cl => omax o (cm_order (fst cl))) l None.
